@@ -238,7 +238,7 @@ def record(plan, tier, seed, bins, wd, scale, tag):
 def validate_all(slices, wd, plan):
     results = []
     with cf.ThreadPoolExecutor(JOBS) as ex:
-        futs = {ex.submit(validate_trace, f, wd, plan.get("trace_timeout", 1500), plan.get("trace_env")): (f, j) for (f, j) in slices}
+        futs = {ex.submit(validate_trace, f, wd, plan.get("trace_timeout", 1500), dict(plan.get("trace_env") or {}, **(j.get("env") or {}))): (f, j) for (f, j) in slices}
         for fu in cf.as_completed(futs):
             f, j = futs[fu]
             results.append((f, j, fu.result()))
